@@ -82,6 +82,15 @@ static void c13_schedules(int shard, long long seed, long long nsteps) {
     Clock* bakp = (cfg == 1) ? (Clock*) &backup : (cfg == 2 ? (Clock*) &reference : nullptr);
     TClock c(refp, bakp);
     Model S, F;
+    // setup(): with a backup clock the system clock starts from the backup's time
+    if (rng.below(3) == 0) {
+      acetime_t bv = (acetime_t) rng.range(1, 1500000000);
+      if (bakp) bakp->setNow(bv);
+      c.setup();
+      CNT.add("c13.setups");
+      if (bakp) { S.init = true; S.T = bv; S.m0 = g_true_ms; F = S; }
+      if (c.isInit() != S.init || c.getNow() != S.read(g_true_ms)) { J j; j.num("cfg", cfg).num("backup_value", bv).num("got", c.getNow()); witness("c13:setup-from-backup-wrong", "setup() did not initialise the clock from the backup clock (or initialised it without one)", j); continue; }
+    }
     uint64_t last_event = 0;          // true time of last poll/effective set
     acetime_t last_read = kInv; bool have_last = false;
     acetime_t lastSync = kInv;
@@ -144,6 +153,18 @@ static void c13_schedules(int shard, long long seed, long long nsteps) {
         have_last = false;
         if (c.getLastSyncTime() != v) { J j; j.str("trace", trace); witness("c13:lastSyncTime-wrong", "getLastSyncTime != last value set", j); }
         if (refp && reference.getNow() != v) { J j; j.str("trace", trace); witness("c13:reference-not-set", "setNow did not propagate to the reference clock", j); }
+      } else if (op == 18 && refp && rng.below(2)) {
+        // forceSync(): read the reference clock now and set the system clock from it
+        acetime_t v = (acetime_t) rng.range(0, 1500000000);
+        acetime_t cached = c.cached();
+        reference.setNow(v);
+        c.forceSync();
+        CNT.add("c13.force_syncs");
+        snprintf(tb, sizeof tb, "+%u forceSync(ref=%d)%s;", gap, v, cached == v ? "[=cached]" : ""); if (trace.size() < 1500) trace += tb;
+        S.init = true; S.T = v; S.m0 = g_true_ms;
+        if (cached != v) { F = S; last_event = g_true_ms; } else { tainted = true; }
+        have_last = false;
+        if (c.getLastSyncTime() != v) { J j; j.str("trace", trace); witness("c13:lastSyncTime-wrong", "getLastSyncTime != value taken by forceSync", j); }
       } else {
         acetime_t before_sync = c.getLastSyncTime();
         c.setNow(kInv);
